@@ -325,6 +325,8 @@ func nestedTwinCases() [][]Step {
 		{Run("rm", "d/t/only"), Run("commit", "-m", "nested directory emptied")},
 		{Run("rm", "d/f"), Run("commit", "-m", "direct child removed"), Run("rm", "d/s"), Run("commit", "-m", "nested directory removed")},
 		{Run("rm", "d/s/x"), Write("d/s/z", "z\n"), Run("add", "d/s/z"), Run("commit", "-m", "one removed, one added: same count")},
+		// everything removed: the empty snapshot is a snapshot (its tree must be stored), and history goes on after it
+		{Run("rm", "lib", "src", "d"), Run("commit", "-m", "emptied"), Write("again", "again\n"), Run("add", "again"), Run("commit", "-m", "after the empty snapshot"), Run("reset", "--mixed", "HEAD@{1}"), Run("write-tree")},
 		// an ignore file written after the paths it names were staged: the snapshot is still what is staged
 		{Write(".goitignore", "*.txt\nd/\n"), Write("src/main.go", "main v2\n"), Run("add", "src/main.go"), Run("commit", "-m", "tracked paths now match the ignore file")},
 	}
